@@ -837,6 +837,8 @@ def check(run):
     check_none_use(run, A, ('pb_bss.distribution.', 'pb_bss.initializer.'))
     check_argument_names(run, A, ('pb_bss.distribution.', 'pb_bss.initializer.'))
     check_stale_loop_variables(run, A, ('pb_bss.distribution.', 'pb_bss.initializer.'))
+    from ..opt import check_extent_loops
+    check_extent_loops(run, A, ('pb_bss.distribution.', 'pb_bss.initializer.'))
     check_forwarding(run, A, ('pb_bss.distribution.', 'pb_bss.initializer.'))
     check_params_reach(run, A, ('pb_bss.distribution.', 'pb_bss.initializer.'))
     check_optional_truthiness(run, A, ('pb_bss.distribution.', 'pb_bss.initializer.'))
